@@ -332,7 +332,9 @@ class CSSImportRule(cssrule.CSSRule):
                     cssText, encodingOverride=encodingOverride, encoding=encoding
                 )
 
-            except (OSError, ValueError) as e:
+            except (OSError, ValueError, xml.dom.DOMException) as e:
+                # DOMException: errors in the imported sheet (if raising)
+                # must not reject setting href, cssText or inserting self
                 self._log.warn(
                     'CSSImportRule: While processing imported '
                     'style sheet href=%s: %r' % (self.href, e),
